@@ -104,6 +104,11 @@ def observe(cmd, args):
         r1 = ev(m, part)
         if part != before: return "evaluate() changed the mapping it was given"
         if ev(m, part) != r1: return "evaluate() is not a function of its arguments"
+        if len(args) > 2:
+            # the same object under another environment, then the first again: each answer is what a fresh object gives
+            part2 = json.loads(args[2])
+            if ev(m, part2) != ev(mk(args[0]), part2): return "evaluate() under %r after %r differs from a fresh Marker's answer" % (part2, part)
+            if ev(m, part) != r1: return "evaluate() under %r changed after evaluating under %r" % (part, part2)
         full = dict(default_environment()); full["extra"] = ""; full.update(part)
         if full.get("extra") is None: full["extra"] = ""
         r2 = ev(m, full)
